@@ -1656,7 +1656,7 @@ def cross_sample(tier, seed, first_id=3000000):
 
 C11_ATOMS = {"i0": I(0), "i3": I(3), "in": I(-2), "i1": I(1), "f15": Fl(3, 1), "f3": Fl(3, 0), "fz": Fl(0, 0), "nan": bin_("/", Fl(0, 0), Fl(0, 0)), "inf": bin_("/", Fl(1, 0), Fl(0, 0)),
              "ninf": bin_("/", Fl(1, 0, True), Fl(0, 0)), "t": Bo(True), "f": Bo(False), "s": St("ab"), "se": St(""), "a": lst([I(1), Fl(3, 1)]), "an": lst([bin_("/", Fl(0, 0), Fl(0, 0))]),
-             "nil": N("nn"), "fn": N("id")}
+             "nil": N("nn"), "fn": N("id"), "imax": I(9223372036854775807), "nbig": I(-4611686018427387905)}
 
 
 def c11_families(tier, seed, ids=None):
